@@ -121,7 +121,7 @@ def run(ctx):
     for i in range(nin):
         level = rnd.choice([1, 1, 1, 2, 3]) if q else rnd.choice([1, 1, 2, 3, 5, 9])
         nblk = rnd.choice([3, 5, 8, 12]) if q else rnd.choice([3, 8, 20, 40])
-        fam = rnd.choice(['uniform', 'text', 'runs', 'concat', 'k4', 'boundary', 'tandem'])
+        fam = rnd.choice(['uniform', 'text', 'runs', 'runs4', 'runs4', 'concat', 'k4', 'boundary', 'tandem'])
         size = min(level * 100000 * nblk + rnd.randint(0, 99999), 3000000 if q else 12000000)
         data = gen.make(rnd, fam, size, level)
         vs = []
